@@ -21,6 +21,7 @@ import (
 	"strings"
 	"time"
 
+	apiequality "k8s.io/apimachinery/pkg/api/equality"
 	apimachineryvalidation "k8s.io/apimachinery/pkg/api/validation"
 	metav1 "k8s.io/apimachinery/pkg/apis/meta/v1"
 	"k8s.io/apimachinery/pkg/runtime"
@@ -150,6 +151,7 @@ type mOutcome struct {
 type mSize [4]interface{} // name(hex), type, n, burst
 
 type modelOut struct {
+	Admitted                             []string
 	Core, CoreAlt, Validate, ValidateAlt mValidate
 	Valid, Usable                        bool
 	Classes                              map[string]bool
@@ -374,14 +376,37 @@ func guard(f func() error) outcome {
 	return outcome{"ok", ""}
 }
 
-func pluginValidate(o *proxyv1alpha1.UpstreamCluster, known []KnownW) (errs []string, agg error, out outcome) {
+func attrsFor(o, old *proxyv1alpha1.UpstreamCluster, op string) admission.Attributes {
+	if op == "update" && old != nil {
+		return admission.NewAttributesRecord(o, old, gv.WithKind("UpstreamCluster"), "", o.Name, gv.WithResource("upstreamclusters"), "",
+			admission.Update, &metav1.UpdateOptions{}, false, nil)
+	}
+	return admission.NewAttributesRecord(o, nil, gv.WithKind("UpstreamCluster"), "", o.Name, gv.WithResource("upstreamclusters"), "",
+		admission.Create, &metav1.CreateOptions{}, false, nil)
+}
+
+func pluginFor(known []KnownW) admission.Interface {
 	objs := []*proxyv1alpha1.UpstreamCluster{}
 	for _, k := range known {
 		objs = append(objs, k.Object())
 	}
-	p := upstreamclusteradmission.VerifC16NewPlugin(listerOf(objs...))
-	attrs := admission.NewAttributesRecord(o, nil, gv.WithKind("UpstreamCluster"), "", o.Name, gv.WithResource("upstreamclusters"), "",
-		admission.Create, &metav1.CreateOptions{}, false, nil)
+	return upstreamclusteradmission.VerifC16NewPlugin(listerOf(objs...))
+}
+
+// pluginAdmit runs the real Admit (defaulting, rule normalisation) on a copy: the admitted object is what Validate
+// sees and what is stored.
+func pluginAdmit(o, old *proxyv1alpha1.UpstreamCluster, op string, known []KnownW) (*proxyv1alpha1.UpstreamCluster, outcome) {
+	c := o.DeepCopy()
+	p := pluginFor(known).(admission.MutationInterface)
+	out := guard(func() error {
+		return p.Admit(context.Background(), attrsFor(c, old, op), admission.NewObjectInterfacesFromScheme(scheme))
+	})
+	return c, out
+}
+
+func pluginValidate(o, old *proxyv1alpha1.UpstreamCluster, op string, known []KnownW) (errs []string, agg error, out outcome) {
+	p := pluginFor(known).(admission.ValidationInterface)
+	attrs := attrsFor(o, old, op)
 	out = guard(func() error {
 		agg = p.Validate(context.Background(), attrs, admission.NewObjectInterfacesFromScheme(scheme))
 		return nil
@@ -571,9 +596,8 @@ func normKnown(l []KnownW) []KnownW {
 
 func run(c *rig.Ctx, cs Case) verdict {
 	cs.Cluster = normAnn(cs.Cluster)
-	cs.Known = normKnown(cs.Known)
-	obj := cs.Cluster.Object()
-	cs.Cluster.MetaErrs = metaErrs(obj)
+	submitted := cs.Cluster.Object()
+	cs.Cluster.MetaErrs = metaErrs(submitted)
 	all := []ClusterW{cs.Cluster}
 	var prevObj *proxyv1alpha1.UpstreamCluster
 	if cs.Prev != nil {
@@ -583,6 +607,22 @@ func run(c *rig.Ctx, cs Case) verdict {
 		p.MetaErrs = metaErrs(prevObj)
 		cs.Prev = &p
 		all = append(all, p)
+	}
+	if cs.Op != "update" || cs.Prev == nil {
+		cs.Op = "create"
+	} else {
+		// an update: the lister holds the stored (old) object
+		cs.Known = append(cs.Known, KnownW{Name: cs.Prev.Name, ServerNames: cs.Prev.Serving.ServerNames})
+	}
+	cs.Known = normKnown(cs.Known)
+
+	// 0. the admission chain starts with Admit (judge: no panic); the admitted object is validated and stored
+	obj, aout := pluginAdmit(submitted, prevObj, cs.Op, cs.Known)
+	if aout.K == "panic" {
+		return fail("judge", "c16.admit-panic", "the admission plugin's Admit panicked: "+aout.What+" on "+cs.Cluster.Summary(), aout.String(), nil)
+	}
+	if aout.K != "ok" {
+		return fail("diff", "c16.admit", "Admit failed: "+aout.What, aout.String(), nil)
 	}
 	env, broken := tables(all)
 	if broken != "" {
@@ -595,7 +635,7 @@ func run(c *rig.Ctx, cs Case) verdict {
 		return fail("judge", "c16.validate-panic", "ValidateUpstreamCluster panicked: "+out.What+" on "+cs.Cluster.Summary(), out.String(), nil)
 	}
 	core := canonErrs(coreErrs)
-	plug, _, pout := pluginValidate(obj, cs.Known)
+	plug, _, pout := pluginValidate(obj, prevObj, cs.Op, cs.Known)
 	if pout.K != "ok" {
 		return fail("judge", "c16.validate-panic", "the admission plugin's Validate panicked: "+pout.What+" on "+cs.Cluster.Summary(), pout.String(), nil)
 	}
@@ -603,11 +643,28 @@ func run(c *rig.Ctx, cs Case) verdict {
 
 	// 2. the model and the spec
 	var m modelOut
-	args := map[string]interface{}{"env": env, "known": cs.Known, "cluster": cs.Cluster, "prev": cs.Prev}
+	args := map[string]interface{}{"env": env, "known": cs.Known, "cluster": cs.Cluster, "prev": cs.Prev, "op": cs.Op}
 	if err := c.Model("C16.run", args, &m); err != nil {
 		return fail("diff", "c16.model-error", "model error: "+err.Error(), nil, err.Error())
 	}
 	v := verdict{ok: true, accepted: accepted}
+
+	// 2a. correspondence of Admit: strategies defaulted as the model says, nothing else of the object changed
+	got := []string{}
+	exp := submitted.DeepCopy()
+	for i, p := range obj.Spec.DispatchPolicies {
+		got = append(got, hx(string(p.Strategy)))
+		exp.Spec.DispatchPolicies[i].Strategy = p.Strategy
+	}
+	if m.Admitted == nil {
+		m.Admitted = []string{}
+	}
+	if !eqS(got, m.Admitted) {
+		return fail("diff", "c16.admit", fmt.Sprintf("Admit: policy strategies code %q, model %q", uhl(got), uhl(m.Admitted)), got, m.Admitted)
+	}
+	if !apiequality.Semantic.DeepEqual(exp.Spec, obj.Spec) || !apiequality.Semantic.DeepEqual(exp.ObjectMeta, obj.ObjectMeta) {
+		return fail("diff", "c16.admit", "Admit changed more than policy strategies (and the normal form of the rules) on "+cs.Cluster.Summary(), rig.Canon(obj.Spec), rig.Canon(exp.Spec))
+	}
 
 	// 3. judge: what the real validation accepts is valid by the declarative spec (the listed classes are rejected)
 	if accepted && !m.Valid {
@@ -619,10 +676,13 @@ func run(c *rig.Ctx, cs Case) verdict {
 		}
 		sort.Strings(bad)
 		cl := "form"
-		if len(bad) > 0 {
-			cl = bad[0]
+		for _, k := range []string{"endpoints", "oneScheme", "clientTLS", "serving", "flowControl", "names", "policyRefs", "featureGate", "meta", "clientLimits", "noConflict", "form"} {
+			if ok, present := m.Classes[k]; present && !ok {
+				cl = k
+				break
+			}
 		}
-		return fail("judge", "c16.accepted-invalid."+cl, fmt.Sprintf("validation accepts an object that must be rejected (failed classes %v): %s", bad, cs.Cluster.Summary()), "accepted", bad)
+		return fail("judge", "c16.accepted-invalid."+cl, fmt.Sprintf("admission (%s) accepts an object that must be rejected (failed %v): %s", cs.Op, bad, cs.Cluster.Summary()), "accepted", bad)
 	}
 
 	// 4. correspondence of the error lists: multiset of (type, path) for ValidateUpstreamCluster, set for the plugin
@@ -783,6 +843,18 @@ func shrink(c *rig.Ctx, cs Case, class string) Case {
 	}
 	try(func(x *Case) { x.Prev = nil })
 	try(func(x *Case) { x.Known = nil })
+	if cs.Prev != nil {
+		// an update admission: simplify old and new object together
+		both := func(f func(w *ClusterW)) { try(func(x *Case) { f(&x.Cluster); f(x.Prev) }) }
+		both(func(w *ClusterW) { w.Schemas = nil; for i := range w.Policies { w.Policies[i].FlowControlSchemaName = "" } })
+		both(func(w *ClusterW) { w.Serving = ServingW{} })
+		both(func(w *ClusterW) { if len(w.Policies) > 1 { w.Policies = w.Policies[:1] } })
+		both(func(w *ClusterW) { for i := range w.Policies { w.Policies[i].UpstreamSubset = nil } })
+		both(func(w *ClusterW) { if len(w.Servers) > 1 { w.Servers = w.Servers[:1] } })
+		both(func(w *ClusterW) { w.Labels = nil })
+		both(func(w *ClusterW) { w.Client.QPS, w.Client.Burst, w.Client.QPSDivisor, w.Client.ServerName = 0, 0, 0, "" })
+		try(func(x *Case) { x.Prev.Annotations = nil })
+	}
 	cs.Known = rig.ShrinkList(cs.Known, func(l []KnownW) bool { x := clone(cs); x.Known = l; return fails(x) })
 	cs.Cluster.Policies = rig.ShrinkList(cs.Cluster.Policies, func(l []PolicyW) bool { x := clone(cs); x.Cluster.Policies = l; return fails(x) })
 	cs.Cluster.Schemas = rig.ShrinkList(cs.Cluster.Schemas, func(l []SchemaW) bool { x := clone(cs); x.Cluster.Schemas = l; return fails(x) })
@@ -867,7 +939,7 @@ func main() {
 		return
 	}
 	rig.Main("C16", func(c *rig.Ctx) {
-		c.SetRule("an UpstreamCluster object (valid object with 0-3 rule-breaking perturbations out of 30, or drawn wild: endpoints from a URL grammar incl. https://%zz, http://[::1, https://, mixed schemes; real and corrupted ed25519 PEM material generated at start-up; every combination of the five flow-control members with boundary numbers; colliding schema / server / cluster names; 0-2 other clusters in the lister; optionally a previously accepted object to apply it over) is validated by the real ValidateUpstreamCluster and plugin Validate and, under recover, applied to the real CreateClusterInfo (local and remote mode), ClusterInfo.Sync as an update, syncUpstreamCluster, the limiter server's UpstreamConditionHandler and two reconcile periods incl. UpdateRateLimitConditionStatus; distinct = distinct canonical case; non-trivial = the object is accepted, or was built by perturbing a valid object (everything but the wild stream)")
+		c.SetRule("an UpstreamCluster object (valid object with 0-3 rule-breaking perturbations out of 30, or drawn wild: endpoints from a URL grammar incl. https://%zz, http://[::1, https://, mixed schemes; real and corrupted ed25519 PEM material generated at start-up; every combination of the five flow-control members with boundary numbers; colliding schema / server / cluster names; 0-2 other clusters in the lister; optionally a previously accepted object to apply it over; 30 % of the cases are UPDATE admissions whose old object is that stored object and whose new object differs from it in any subset of {annotations, labels, spec}, valid and invalid) goes through the real plugin Admit and Validate (Create / Update attributes with the old object) and ValidateUpstreamCluster and, under recover, applied to the real CreateClusterInfo (local and remote mode), ClusterInfo.Sync as an update, syncUpstreamCluster, the limiter server's UpstreamConditionHandler and two reconcile periods incl. UpdateRateLimitConditionStatus; distinct = distinct canonical case; non-trivial = the object is accepted, or was built by perturbing a valid object (everything but the wild stream)")
 		if c.Replay != "" {
 			var cs Case
 			if err := c.LoadReplay(&cs); err != nil {
@@ -907,26 +979,32 @@ func main() {
 		var lastAccepted *ClusterW
 		start := time.Now()
 		for i := 0; i < n && nJudge < maxJudge; i++ {
-			cs, label := g.Case()
-			if lastAccepted != nil && g.chance(0.5) {
-				p := *lastAccepted
-				cs.Prev = &p
+			var cs Case
+			var label string
+			if lastAccepted != nil && g.chance(0.3) {
+				cs, label = g.UpdateCase(*lastAccepted)
+			} else {
+				cs, label = g.Case()
+				if lastAccepted != nil && g.chance(0.5) {
+					p := *lastAccepted
+					cs.Prev = &p
+				}
 			}
 			v := runAndRecord(c, cs)
 			bucket := "rejected:" + label
 			if v.accepted {
 				bucket = "accepted:" + label
-				w := cs.Cluster
+				w := stored(cs.Cluster)
 				lastAccepted = &w
 			}
 			if !v.ok {
 				bucket = "failed:" + label
 			}
-			if strings.Count(label, "+") > 0 {
+			if strings.Count(label, "+") > 0 && !strings.HasPrefix(label, "update:") {
 				bucket = strings.SplitN(bucket, ":", 2)[0] + ":multi"
 			}
 			c.Case(rig.Canon(cs), v.accepted || label != "wild", bucket, func() interface{} {
-				return map[string]interface{}{"object": cs.Cluster.Summary(), "accepted": v.accepted, "label": label}
+				return map[string]interface{}{"object": cs.Cluster.Summary(), "accepted": v.accepted, "label": label, "op": cs.Op}
 			})
 			if v.sig != "" {
 				c.Count("sig:" + v.sig)
